@@ -1,7 +1,9 @@
 #!/venv/bin/python
-"""Copy mutants produced by the sub-agents (/tmp/seed/<ID>/mutants/m<k>) into /verif/seeded/<ID>-m<k>/."""
+"""Copy mutants produced by the sub-agents (<src>/<ID>/mutants/m<k>) into /verif/seeded/<ID>-m<k+offset>/.
+usage: import_seeds.py [src=/tmp/seed] [offset=0]"""
 import json, os, shutil, sys
-SRC = "/tmp/seed"
+SRC = sys.argv[1] if len(sys.argv) > 1 else "/tmp/seed"
+OFFSET = int(sys.argv[2]) if len(sys.argv) > 2 else 0   # round 2: m1..m3 -> m4..m6
 DST = "/verif/seeded"
 for pid in sorted(os.listdir(SRC)):
     md = os.path.join(SRC, pid, "mutants")
@@ -11,7 +13,7 @@ for pid in sorted(os.listdir(SRC)):
         d = os.path.join(md, m)
         if not (os.path.isdir(d) and os.path.exists(os.path.join(d, "patch.diff"))):
             continue
-        out = os.path.join(DST, f"{pid}-{m}")
+        out = os.path.join(DST, f"{pid}-m{int(m[1:]) + OFFSET}" if OFFSET else f"{pid}-{m}")
         if os.path.exists(os.path.join(out, "meta.json")):
             continue
         os.makedirs(out, exist_ok=True)
